@@ -54,6 +54,8 @@ def _replay_task(t):
 
 
 def signature(cls, kernel, text):
+    if "atomic-mixed-forms" in kernel.get("features", []) and cls in ("data-race", "output-mismatch"):
+        return "%s|mixed-atomic-forms" % PROP
     feats = ",".join(kernel.get("features", []))
     detail = ""
     if cls == "output-mismatch":
@@ -105,8 +107,11 @@ def main(tier):
             if v["class"] == "ENGINE":
                 rep.engine_errors.append(v["text"])
                 continue
-            raw[v["class"]] = raw.get(v["class"], 0) + 1
-            if raw[v["class"]] <= 2 and len(pending) < 6:
+            sig = signature(v["class"], v["kernel"], v["text"])
+            raw[sig] = raw.get(sig, 0) + 1
+            if sig in rep.known:
+                rep.known_seen[sig] = rep.known[sig]      # a recorded finding: no need to replay it again
+            elif raw[sig] <= 2 and len(pending) < 8:
                 pending.append((v["kernel"], v["cfg"]))
 
     n, errors = pool.run(_task, tasks(), deadline, on_result)
